@@ -357,19 +357,27 @@ func (fc *FnCtx) doAppend(res ssa.Value, c *ssa.CallCommon, pos token.Pos) {
 		}
 	}
 	newLen := fmt.Sprintf("(+ %s %s)", s.C[2], n)
-	fresh := fc.allocRef(res.Name()+".grow", res.Type()).S()
+	if f := fc.familyOf[res]; f != nil && (fc.familyOf[c.Args[0]] == f || isNilConst(c.Args[0])) {
+		fc.familyAppend(res, f, s, et, n, elems, haveElems, tailSeq, pos)
+		return
+	}
+	freshRef := fc.allocRef(res.Name()+".grow", res.Type()).S()
 	inplace := fc.fresh(res.Name()+".inplace", SBool)
 	fc.assert(fmt.Sprintf("(= %s (<= %s %s))", inplace, newLen, s.C[3]))
-	rref := ite(inplace, s.C[0], fresh)
-	roff := ite(inplace, s.C[1], "0")
+	// result components are fresh constants tied to the two cases by guarded equalities (the solver
+	// case-splits on `inplace`; inside each case all terms are simple)
+	rref := fc.fresh(res.Name()+".ref", SInt)
+	roff := fc.fresh(res.Name()+".off", SInt)
+	rlen := fc.fresh(res.Name()+".len", SInt)
 	rcap := fc.fresh(res.Name()+".cap", SInt)
-	fc.assert(fmt.Sprintf("(and (<= %s %s) (=> %s (= %s %s)) (<= %s %s))", newLen, rcap, inplace, rcap, s.C[3], rcap, maxLen))
+	fc.assert(fmt.Sprintf("(= %s %s)", rlen, newLen))
+	fc.assert(fmt.Sprintf("(=> %s (and (= %s %s) (= %s %s) (= %s %s)))", inplace, rref, s.C[0], roff, s.C[1], rcap, s.C[3]))
+	fc.assert(fmt.Sprintf("(=> (not %s) (and (= %s %s) (= %s 0) (<= %s %s) (<= %s %s)))", inplace, rref, freshRef, roff, rlen, rcap, rcap, maxLen))
 	fc.assumeHere(fmt.Sprintf("(<= %s %s)", newLen, maxLen)) // global length assumption
 	fc.allocCheck(n, pos)
-	rv := mkVal(res.Type(), []string{rref, roff, newLen, rcap})
+	rv := mkVal(res.Type(), []string{rref, roff, rlen, rcap})
 	// contents
 	if _, isStruct := et.Underlying().(*types.Struct); isStruct {
-		// slices of structs: element contents addressed via elem.T; havoc field heaps of the element type
 		mods := map[string]bool{}
 		addTypeHeaps("A."+typeName(et), et, mods)
 		fc.havocSet(&fc.cur, mods)
@@ -383,34 +391,30 @@ func (fc *FnCtx) doAppend(res ssa.Value, c *ssa.CallCommon, pos token.Pos) {
 		hs := arrOf(arrOf(sorts[ci]))
 		cur := fc.getHeapTerm(&fc.cur, hn, hs)
 		oldArr := fmt.Sprintf("(select %s %s)", cur, s.C[0])
-		// grown copy: fresh array equal to the old prefix
-		grown := fc.fresh(res.Name()+".grown", arrOf(sorts[ci]))
+		// the contents of the result's backing array, as one fresh array R:
+		//   R[roff+k] = old[soff+k] for k < len(s);  R[roff+len(s)+j] = appended element j;
+		//   in place: every other cell of R equals the old backing array
+		R := fc.fresh(res.Name()+".arr", arrOf(sorts[ci]))
 		fc.nfresh++
 		q := fmt.Sprintf("k!q%d", fc.nfresh)
-		fc.assert(fmt.Sprintf("(forall ((%s Int)) (! (=> (and (<= 0 %s) (< %s %s)) (= (select %s %s) (select %s (+ %s %s)))) :pattern ((select %s %s))))",
-			q, q, q, s.C[2], grown, q, oldArr, s.C[1], q, grown, q))
-		inArr, grArr := oldArr, grown
+		fc.assert(fmt.Sprintf("(forall ((%s Int)) (! (=> (and (<= 0 %s) (< %s %s)) (= (select %s (+ %s %s)) (select %s (+ %s %s)))) :pattern ((select %s (+ %s %s)))))",
+			q, q, q, s.C[2], R, roff, q, oldArr, s.C[1], q, R, roff, q))
 		if haveElems {
 			for k, ev := range elems {
-				inArr = fmt.Sprintf("(store %s (+ %s %s %d) %s)", inArr, s.C[1], s.C[2], k, ev.C[ci])
-				grArr = fmt.Sprintf("(store %s (+ %s %d) %s)", grArr, s.C[2], k, ev.C[ci])
+				fc.assert(fmt.Sprintf("(= (select %s (+ %s %s %d)) %s)", R, roff, s.C[2], k, ev.C[ci]))
 			}
 		} else if tailSeq[0] != "" && ci == 0 {
-			// appended region equals the tail sequence
-			in2 := fc.fresh(res.Name()+".in", arrOf(sorts[ci]))
-			gr2 := fc.fresh(res.Name()+".gr", arrOf(sorts[ci]))
-			for _, p := range [][3]string{{in2, inArr, fmt.Sprintf("(+ %s %s)", s.C[1], s.C[2])}, {gr2, grArr, s.C[2]}} {
-				fc.nfresh++
-				q := fmt.Sprintf("k!q%d", fc.nfresh)
-				fc.assert(fmt.Sprintf("(forall ((%s Int)) (! (= (select %s %s) (ite (and (<= %s %s) (< %s (+ %s %s))) (select %s (+ %s (- %s %s))) (select %s %s))) :pattern ((select %s %s))))",
-					q, p[0], q, p[2], q, q, p[2], n, tailSeq[0], tailSeq[1], q, p[2], p[1], q, p[0], q))
-			}
-			inArr, grArr = in2, gr2
-		} else {
-			inArr = fc.fresh(res.Name()+".in", arrOf(sorts[ci]))
-			grArr = fc.fresh(res.Name()+".gr", arrOf(sorts[ci]))
+			fc.nfresh++
+			q2 := fmt.Sprintf("k!q%d", fc.nfresh)
+			fc.assert(fmt.Sprintf("(forall ((%s Int)) (! (=> (and (<= 0 %s) (< %s %s)) (= (select %s (+ %s %s %s)) (select %s (+ %s %s)))) :pattern ((select %s (+ %s %s %s)))))",
+				q2, q2, q2, n, R, roff, s.C[2], q2, tailSeq[0], tailSeq[1], q2, R, roff, s.C[2], q2))
 		}
-		fc.heapSet(&fc.cur, hn, hs, ite(inplace, fmt.Sprintf("(store %s %s %s)", cur, s.C[0], inArr), fmt.Sprintf("(store %s %s %s)", cur, fresh, grArr)))
+		// in place: cells outside [soff+len, soff+len+n) keep their old values
+		fc.nfresh++
+		q3 := fmt.Sprintf("k!q%d", fc.nfresh)
+		fc.assert(fmt.Sprintf("(=> %s (forall ((%s Int)) (! (=> (or (< %s (+ %s %s)) (>= %s (+ %s %s %s))) (= (select %s %s) (select %s %s))) :pattern ((select %s %s)))))",
+			inplace, q3, q3, s.C[1], s.C[2], q3, s.C[1], s.C[2], n, R, q3, oldArr, q3, R, q3))
+		fc.heapSet(&fc.cur, hn, hs, fmt.Sprintf("(store %s %s %s)", cur, rref, R))
 	}
 	fc.setVal(res, rv)
 }
@@ -482,4 +486,54 @@ func (e *Engine) mapInvFor(t types.Type) *Clause {
 		return nil
 	}
 	return &con.Ensures[0]
+}
+
+// familyAppend: append within a linear local append family (see family.go): the result lives on the
+// family's private backing array at offset 0; contents are the old contents followed by the new elements.
+func (fc *FnCtx) familyAppend(res ssa.Value, f *family, s Val, et types.Type, n string, elems []Val, haveElems bool, tailSeq [3]string, pos token.Pos) {
+	c := fc.familyConst(f)
+	newLen := fmt.Sprintf("(+ %s %s)", s.C[2], n)
+	rcap := fc.fresh(res.Name()+".cap", SInt)
+	fc.assert(fmt.Sprintf("(and (<= %s %s) (<= %s %s))", newLen, rcap, rcap, maxLen))
+	fc.assumeHere(fmt.Sprintf("(<= %s %s)", newLen, maxLen))
+	fc.allocCheck(n, pos)
+	rv := mkVal(res.Type(), []string{c, "0", newLen, rcap})
+	if _, isStruct := et.Underlying().(*types.Struct); isStruct {
+		mods := map[string]bool{}
+		addTypeHeaps("A."+typeName(et), et, mods)
+		fc.havocSet(&fc.cur, mods)
+		fc.setVal(res, rv)
+		return
+	}
+	sorts := sortsOf(et)
+	names := compNames(et)
+	for ci := range sorts {
+		hn := "A." + typeName(et) + "." + names[ci]
+		hs := arrOf(arrOf(sorts[ci]))
+		cur := fc.getHeapTerm(&fc.cur, hn, hs)
+		// old contents: the member being extended always has offset 0 (or is nil with length 0)
+		base := fmt.Sprintf("(select %s %s)", cur, s.C[0])
+		var R string
+		switch {
+		case haveElems:
+			R = base
+			for k, ev := range elems {
+				R = fmt.Sprintf("(store %s (+ %s %d) %s)", R, s.C[2], k, ev.C[ci])
+			}
+		case tailSeq[0] != "" && ci == 0:
+			R = fc.fresh(res.Name()+".arr", arrOf(sorts[ci]))
+			fc.nfresh++
+			q := fmt.Sprintf("j!q%d", fc.nfresh)
+			fc.assert(fmt.Sprintf("(forall ((%s Int)) (! (= (select %s %s) (ite (and (<= %s %s) (< %s (+ %s %s))) (select %s (+ %s (- %s %s))) (select %s %s))) :pattern ((select %s %s))))",
+				q, R, q, s.C[2], q, q, s.C[2], n, tailSeq[0], tailSeq[1], q, s.C[2], base, q, R, q))
+		default:
+			R = fc.fresh(res.Name()+".arr", arrOf(sorts[ci]))
+			fc.nfresh++
+			q := fmt.Sprintf("j!q%d", fc.nfresh)
+			fc.assert(fmt.Sprintf("(forall ((%s Int)) (! (=> (and (<= 0 %s) (< %s %s)) (= (select %s %s) (select %s %s))) :pattern ((select %s %s))))",
+				q, q, q, s.C[2], R, q, base, q, R, q))
+		}
+		fc.heapSet(&fc.cur, hn, hs, fmt.Sprintf("(store %s %s %s)", cur, c, R))
+	}
+	fc.setVal(res, rv)
 }
